@@ -233,10 +233,55 @@ def cold_history(ops, passive, hashseed, warn_mode="ignore"):
     e["PYTHONPATH"] = env.VERIF + os.pathsep + e.get("PYTHONPATH", "")
     e["VERIF_REPO"] = env.REPO
     p = subprocess.run(
-        [sys.executable, "-m", "sim.oracle_server", "--history"], env=e, cwd=env.VERIF,
+        no_aslr_prefix() + [sys.executable, "-m", "sim.oracle_server", "--history"], env=e, cwd=env.VERIF,
         input=_framed(pickle.dumps((ops, passive, warn_mode), protocol=4)), stdout=subprocess.PIPE, timeout=120)
     if p.returncode != 0:
         raise HarnessError("cold interpreter failed on a history (%d)" % p.returncode)
+    return pickle.loads(p.stdout)
+
+
+_NOASLR = None
+
+
+def no_aslr_prefix():
+    """`setarch <machine> -R` where it works: a freshly started interpreter then gets the same
+    addresses on every start (address-space randomisation is one more source of nondeterminism;
+    effects that depend on object addresses replay exactly only without it)."""
+    global _NOASLR
+    if _NOASLR is None:
+        import platform
+        import shutil
+        _NOASLR = []
+        exe = shutil.which("setarch")
+        if exe:
+            cmd = [exe, platform.machine(), "-R"]
+            try:
+                outs = {subprocess.run(cmd + [sys.executable, "-c", "print(id(object()))"], stdout=subprocess.PIPE,
+                                       stderr=subprocess.DEVNULL, timeout=30).stdout for _ in range(2)}
+                if len(outs) == 1 and outs != {b""}:
+                    _NOASLR = cmd
+            except Exception:
+                pass
+    return list(_NOASLR)
+
+
+def cold_sched(spec, timeout=700.0):
+    """One schedsim run in a freshly started interpreter under the harness hash seed.  The spec is
+    sent in one canonical form (sorted keys), whether it comes from a run or from a replay file."""
+    import json
+    spec = json.loads(json.dumps(spec, sort_keys=True))
+    e = dict(os.environ)
+    e["PYTHONHASHSEED"] = env.HARNESS_HASHSEED
+    e["PYTHONPATH"] = env.VERIF + os.pathsep + e.get("PYTHONPATH", "")
+    e["VERIF_REPO"] = env.REPO
+    try:
+        p = subprocess.run(
+            no_aslr_prefix() + [sys.executable, "-m", "sim.oracle_server", "--sched"], env=e, cwd=env.VERIF,
+            input=_framed(pickle.dumps(spec, protocol=4)), stdout=subprocess.PIPE, stderr=subprocess.PIPE, timeout=timeout)
+    except subprocess.TimeoutExpired:
+        raise HarnessTimeout("cold schedule run exceeded %.0f s" % timeout)
+    if p.returncode != 0:
+        raise HarnessError("cold interpreter failed on a schedule (%d): %s" % (p.returncode, p.stderr.decode("utf-8", "replace")[-600:]))
     return pickle.loads(p.stdout)
 
 
